@@ -144,6 +144,7 @@ PROPS = {
         assumptions=["no logger is installed (warn! formats nothing)", "PARTIAL: allocation counts and slice addresses are measured on generated streams, not proved"],
     ),
     "C01": dict(
+        shrink=True,
         props_files=["Props/C01.v"],
         suites=["C01"],
         fuzzing=True,
@@ -227,6 +228,7 @@ PROPS = {
         assumptions=["each PES header lies wholly within the transport packet that starts it (as the property states)"],
     ),
     "C06": dict(
+        shrink=True,
         props_files=["Props/C06.v"],
         suites=["C06"],
         render=r_stream,
@@ -239,6 +241,7 @@ PROPS = {
         assumptions=["application handlers and construct() do not touch the change-set except as scripted", "PID 0 traffic (PAT semantics) is exercised by the table suites, not here"],
     ),
     "C18": dict(
+        shrink=True,
         props_files=["Props/C18.v"],
         suites=["C18"],
         render=r_stream,
@@ -279,6 +282,7 @@ PROPS = {
         assumptions=["at most one section starts per transport packet and that packet carries at least the section's fixed header (8 / 3 bytes), as the property states"],
     ),
     "C08": dict(
+        shrink=True,
         props_files=["Props/C08.v"],
         suites=["C08"],
         render=r_stream,
@@ -292,6 +296,7 @@ PROPS = {
         assumptions=["packets handed to the filter are 188 bytes with a sync byte (Packet::new's precondition)"],
     ),
     "C09": dict(
+        shrink=True,
         props_files=["Props/C09.v"],
         suites=["C08"],
         render=r_stream,
